@@ -83,6 +83,8 @@ type methodSet map[string]*ssa.Function
 type interpreter struct {
 	inited             map[*ssa.Package]bool
 	onceDone           map[*value]bool
+	syncMaps           map[*value]*omap
+	built              map[*ssa.Package]bool
 	interned           []internEntry
 	idSeq              int
 	osArgs             []value                // the value of os.Args
@@ -578,8 +580,11 @@ func callSSA(i *interpreter, caller *frame, callpos token.Pos, fn *ssa.Function,
 			}
 			return ext(fr, args)
 		}
-		if fn.Blocks == nil && fn.Pkg != nil {
+		// Packages are built lazily and the program is shared by several interpreter copies:
+		// Build() is idempotent and blocks until a concurrent build of that package is complete.
+		if fn.Pkg != nil && !i.built[fn.Pkg] {
 			fn.Pkg.Build()
+			i.built[fn.Pkg] = true
 		}
 		if fn.Blocks == nil {
 			panic("no code for function: " + name)
